@@ -4,4 +4,6 @@ go 1.22
 
 require github.com/goose-lang/goose v0.0.0
 
+require golang.org/x/sys v0.22.0 // indirect
+
 replace github.com/goose-lang/goose => /repo
